@@ -12,13 +12,13 @@ export VERIF_REPO="$REPO"
 missed=0; total=0
 run_one() { # name patch checks...
   local name="$1" patch="$2"; shift 2
-  git -C "$REPO" checkout -q -- . ; git -C "$REPO" apply "$patch" || { echo "$name: PATCH DOES NOT APPLY"; missed=$((missed+1)); return; }
+  git -C "$REPO" checkout -q -- . ; git -C "$REPO" clean -fdq ; git -C "$REPO" apply "$patch" || { echo "$name: PATCH DOES NOT APPLY"; missed=$((missed+1)); return; }
   for p in "$@"; do
     total=$((total+1))
     out=$(JLMC_SKIP_MIRI=1 ./check "$p" quick 2>/dev/null); rc=$?
     if [ $rc -eq 1 ] && echo "$out" | grep -q "^VIOLATION property=$p"; then echo "$name: $p CAUGHT"; else echo "$name: $p MISSED (exit $rc)"; missed=$((missed+1)); fi
   done
-  git -C "$REPO" checkout -q -- .
+  git -C "$REPO" checkout -q -- . ; git -C "$REPO" clean -fdq
 }
 for d in seeded/*/; do
   n=$(basename "$d")
